@@ -31,6 +31,16 @@ var BuildSteps = []builder.Builder{
 func Generate(converters []*config.Converter, c Config) (map[string][]byte, error) {
 	manager := &fileManager{Files: map[string]*managedFile{}}
 
+	// the names declared by all converters are reserved before any helper name is
+	// allocated: a helper of an earlier converter must not get the name that a
+	// later converter of the same output package declares
+	for _, converter := range converters {
+		n := manager.namerFor(getOutputDir(converter))
+		for _, cMethod := range converter.Methods {
+			n.Register(cMethod.Name)
+		}
+	}
+
 	for _, converter := range converters {
 		jenFile, n, err := manager.Get(converter, c)
 		if err != nil {
